@@ -51,12 +51,21 @@ Fixpoint chain (w : world) (atts : list attempt) (w' : world) : Prop :=
 Definition position_ok (folder : str) (p : parsed) (c : reply) (a : attempt) : Prop :=
   if is_2xx c then accepted_ok a folder p else rejected_ok a.
 
-Definition spec_C01 (w : world) (folder : str) (rs : list str) (p : parsed) (clk : nat -> Z) : Prop :=
-  let '(w', replies, atts) := lmtp_data w folder rs p clk in
+Definition spec_result (w : world) (folder : str) (rs : list str) (p : parsed)
+           (res : world * list reply * list attempt) : Prop :=
+  let '(w', replies, atts) := res in
   length replies = length rs /\
   map a_rcpt atts = rs /\
   chain w atts w' /\
   Forall2 (position_ok folder p) replies atts.
+
+Definition spec_C01 (w : world) (folder : str) (rs : list str) (p : parsed) (clk : nat -> Z) : Prop :=
+  spec_result w folder rs p (lmtp_data w folder rs p clk).
+
+(** the same reading for handleDATA under a configuration, whatever CheckQuota says *)
+Definition spec_C01_cfg (c : cfg) (over_quota : str -> bool) (w : world) (rs : list str)
+           (p : parsed) (size : Z) (clk : nat -> Z) : Prop :=
+  spec_result w (c_folder c) rs p (handle_data c over_quota w rs p size clk).
 
 (** ---- world invariant ------------------------------------------------------------- *)
 
